@@ -141,7 +141,7 @@ func (s *Sys) ExploreJoint(opt JointOptions) *JointResult {
 					cands = append(cands, cand{st, e, true})
 				}
 			}
-			if !opt.KeepNets {
+			if !opt.KeepNets && len(evs) > 0 {
 				st.Net = nil
 			}
 		}
